@@ -601,6 +601,188 @@ fn batch_set(cfg: &Cfg, rng: &mut Rng, rep: &mut Report) {
 }
 
 // ---------------------------------------------------------------------------------------------
+// large batches (stream 5)
+//
+// The number of targets of one call is not bounded by the quantifier: resampling onto thousands of
+// scattered points is one call. The value at a target must not depend on how many other targets the
+// call carries nor on their order, so batches whose sizes sit at and around powers of two (255 .. 10000,
+// thorough: .. 20000) are evaluated one target per call and then in ONE call in six orders: random,
+// sorted, reversed, block-shuffled (sorted blocks in permuted block order), rotated (the sorted list cut
+// at a random place) and sorted with a few transpositions. Every value of every batch call is judged by
+// the double-double oracle and must equal the one-target-per-call value bit for bit; in Panic mode the
+// batch holds in-range targets only, and one further call with a single out-of-range target planted at a
+// random position must panic.
+
+const LARGE_SIZES: [usize; 18] = [255, 256, 257, 511, 512, 513, 1023, 1024, 1025, 2047, 2048, 2049, 4095, 4096, 4097, 8191, 8192, 10000];
+const LARGE_SIZES_THOROUGH: [usize; 4] = [16383, 16384, 16385, 20000];
+const LARGE_ORDERS: [&str; 6] = ["random", "sorted", "reversed", "block-shuffled", "rotated", "sorted-with-few-swaps"];
+
+/// `k` targets for the knot set: knots, knot +- 1 ulp, midpoints, random interior points and — `oor` —
+/// about one in ten beyond either end. In generation order (no particular order).
+fn large_targets(rng: &mut Rng, x: &[f64], k: usize, oor: bool) -> Vec<f64> {
+    let n = x.len();
+    let range = x[n - 1] - x[0];
+    let mut v = Vec::with_capacity(k);
+    while v.len() < k {
+        let i = rng.usize(0, n - 2);
+        let t = match rng.usize(0, 19) {
+            0..=3 => x[rng.usize(0, n - 1)],
+            4 => x[i].next_up(),
+            5 => x[i + 1].next_down(),
+            6 | 7 => 0.5 * x[i] + 0.5 * x[i + 1],
+            8 | 9 if oor => {
+                let d = match rng.usize(0, 2) {
+                    0 => 0.0,
+                    1 => rng.log_range(1e-3, 0.5) * range,
+                    _ => range,
+                };
+                if rng.bool() {
+                    (x[0] - d).next_down()
+                } else {
+                    (x[n - 1] + d).next_up()
+                }
+            }
+            _ => x[i] + (x[i + 1] - x[i]) * rng.f64(),
+        };
+        if t.is_finite() && (oor || (t >= x[0] && t <= x[n - 1])) {
+            v.push(t);
+        }
+    }
+    v
+}
+
+fn large_batch_case(cfg: &Cfg, i: usize, rng: &mut Rng, rep: &mut Report) {
+    let nsz = LARGE_SIZES.len() + if cfg.thorough() { LARGE_SIZES_THOROUGH.len() } else { 0 };
+    let k = if cfg.lite {
+        [1024usize, 1025, 2048][i % 3]
+    } else if i % nsz < LARGE_SIZES.len() {
+        LARGE_SIZES[i % nsz]
+    } else {
+        LARGE_SIZES_THOROUGH[i % nsz - LARGE_SIZES.len()]
+    };
+    let kn = gen_knots(rng, false);
+    let (x, y) = (&kn.x, &kn.y);
+    let n = x.len();
+    rep.seen(if k >= 1024 { "large-batch:size>=1024" } else { "large-batch:size<1024" }, 1);
+    rep.seen(if k.is_power_of_two() { "large-batch:size=2^j" } else if (k + 1).is_power_of_two() { "large-batch:size=2^j-1" } else if (k - 1).is_power_of_two() { "large-batch:size=2^j+1" } else { "large-batch:size=other" }, 1);
+    rep.seen(if n >= 61 { "large-batch:knots>=61" } else { "large-batch:knots<61" }, 1);
+    rep.distinct(Hasher::new().s("large-batch").u(k as u64).fs(x).fs(y).finish(), n >= 3 && y.iter().any(|&v| v != y[0]));
+    let fills = Mode::Fill(rng.normal() * 1e3 + 12345.0, rng.normal() * 1e3 - 54321.0);
+    let master_in = large_targets(rng, x, k, false);
+    let master_all = large_targets(rng, x, k, true);
+    // in lite mode (sanitizer layers) one variant x mode pair per case, rotating
+    let combos: Vec<(bool, Mode)> = [true, false].iter().flat_map(|&c| [Mode::Panic, fills, Mode::Extrapolate].into_iter().map(move |m| (c, m))).collect();
+    for (ci, &(checked, m)) in combos.iter().enumerate() {
+        if cfg.lite && ci != i % combos.len() {
+            continue;
+        }
+        let master: &Vec<f64> = if m == Mode::Panic { &master_in } else { &master_all };
+        if m != Mode::Panic {
+            if master.iter().any(|&t| t < x[0]) && master.iter().any(|&t| t > x[n - 1]) {
+                rep.seen("large-batch:out-of-range-on-both-sides", 1);
+            }
+        }
+        let head = |ts: &[f64]| jf(&ts[..ts.len().min(8)]);
+        // (a) one target per call
+        let sreg = format!("{}:{}:large-batch:single", vname(checked), m.name());
+        let ctx1 = |extra: Value| json!({"variant": vname(checked), "mode": m.js(), "x": jf(x), "y": jf(y), "n": n, "batch_size": 1, "detail": extra});
+        let mut single: Vec<Option<f64>> = Vec::with_capacity(k);
+        for &t in master.iter() {
+            rep.case(&sreg);
+            match call(checked, x, y, &[t], m) {
+                Ok(v) if v.len() == 1 => {
+                    judge(rep, &sreg, x, y, m, t, v[0], &ctx1);
+                    single.push(Some(v[0]));
+                }
+                Ok(v) => {
+                    rep.check("C16.output_len", &sreg, false, || ctx1(json!({"targets": 1, "returned": v.len()})));
+                    single.push(None);
+                }
+                Err(msg) => {
+                    rep.check("C16.in_range.no_panic", &sreg, false, || ctx1(json!({"target": t, "panic": msg})));
+                    single.push(None);
+                }
+            }
+        }
+        // (b) the same targets in one call
+        let mut asc: Vec<usize> = (0..k).collect();
+        asc.sort_by(|&a, &b| master[a].partial_cmp(&master[b]).unwrap().then(a.cmp(&b)));
+        for order in LARGE_ORDERS {
+            let (idx, how): (Vec<usize>, Value) = match order {
+                "random" => {
+                    let mut v: Vec<usize> = (0..k).collect();
+                    rng.shuffle(&mut v);
+                    (v, json!("uniform random permutation"))
+                }
+                "sorted" => (asc.clone(), json!("ascending")),
+                "reversed" => (asc.iter().rev().cloned().collect(), json!("descending")),
+                "block-shuffled" => {
+                    let b = rng.usize(2, (k / 8).max(2));
+                    let mut blocks: Vec<&[usize]> = asc.chunks(b).collect();
+                    rng.shuffle(&mut blocks);
+                    (blocks.concat(), json!({"ascending_blocks_of": b, "in_random_block_order": true}))
+                }
+                "rotated" => {
+                    let r = rng.usize(1, k - 1);
+                    let mut v = asc.clone();
+                    v.rotate_left(r);
+                    (v, json!({"ascending_rotated_left_by": r}))
+                }
+                _ => {
+                    let s = rng.usize(1, 5);
+                    let mut v = asc.clone();
+                    let mut sw = Vec::new();
+                    for _ in 0..s {
+                        let (p, q) = (rng.usize(0, k - 1), rng.usize(0, k - 1));
+                        v.swap(p, q);
+                        sw.push([p, q]);
+                    }
+                    (v, json!({"ascending_then_positions_swapped": sw}))
+                }
+            };
+            let ts: Vec<f64> = idx.iter().map(|&j| master[j]).collect();
+            let regime = format!("{}:{}:large-batch:{}", vname(checked), m.name(), order);
+            rep.case(&regime);
+            let ctx = |extra: Value| json!({"variant": vname(checked), "mode": m.js(), "order": order, "order_construction": how, "x": jf(x), "y": jf(y), "n": n, "batch_size": k, "targets_head": head(&ts), "detail": extra});
+            match call(checked, x, y, &ts, m) {
+                Err(msg) => {
+                    rep.check("C16.batch.no_panic", &regime, false, || ctx(json!({"panic": msg})));
+                }
+                Ok(v) => {
+                    rep.check("C16.batch.no_panic", &regime, true, || json!(null));
+                    if !rep.check("C16.output_len", &regime, v.len() == ts.len(), || ctx(json!({"targets": ts.len(), "returned": v.len()}))) {
+                        continue;
+                    }
+                    for (j, &mi) in idx.iter().enumerate() {
+                        judge(rep, &regime, x, y, m, ts[j], v[j], &ctx);
+                        if let Some(sv) = single[mi] {
+                            rep.check("C16.batch.same_as_single", &regime, same_bits(v[j], sv), || ctx(json!({"position_in_call": j, "target": ts[j], "in_this_call": jnum(v[j]), "alone": jnum(sv)})));
+                        }
+                    }
+                }
+            }
+            // Panic mode: the same batch with ONE target beyond an end planted somewhere must panic
+            if m == Mode::Panic && (order == "random" || order == "sorted") && !cfg.lite {
+                let left = rng.bool();
+                let range = x[n - 1] - x[0];
+                let d = if rng.bool() { 0.0 } else { rng.log_range(1e-3, 1.0) * range };
+                let t = if left { (x[0] - d).next_down() } else { (x[n - 1] + d).next_up() };
+                if t.is_finite() {
+                    let mut ts2 = ts.clone();
+                    let pos = rng.usize(0, k - 1);
+                    ts2[pos] = t;
+                    rep.case(&regime);
+                    rep.seen("large-batch:panic-mode-one-target-outside", 1);
+                    let got = call(checked, x, y, &ts2, Mode::Panic);
+                    let a = format!("C16.panic_mode.{}", if left { "left" } else { "right" });
+                    rep.check(&a, &regime, got.is_err(), || ctx(json!({"one_target_replaced_at": pos, "by": t, "beyond_by": if left { x[0] - t } else { t - x[n - 1] }, "observed": "a value vector", "expected": "panic"})));
+                }
+            }
+        }
+    }
+}
+
+// ---------------------------------------------------------------------------------------------
 // call histories of the checked variant on one buffer (stream 4)
 //
 // `interp1d_linear` is a free function of (x, y, targets, mode): what the thread has interpolated before,
@@ -958,7 +1140,7 @@ fn history_case(cfg: &Cfg, i: usize, rng: &mut Rng, rep: &mut Report) {
 }
 
 pub fn run(cfg: &Cfg, rep: &mut Report) {
-    rep.rule = "random knot sets: n in 2..200, strictly increasing abscissae (uniform / spacing ratios <= 1e2 / <= 1e6, scale 1e-3..1e3), ordinates gaussian / |y| in 1e-150..1e150 / flat runs with zeros / integers / offset 1e6; per set: in-range targets (knots incl. first and last, midpoints, knot+-1ulp, random interior) x 3 modes x 2 variants, then per side 4 out-of-range targets (1 ulp, fraction of range, 1x, 10x range) x 3 modes x 2 variants, then one unsorted and one length-mismatched call of the checked variant. one evaluation = one library call. non-trivial = n >= 3 and ordinates not all equal; distinct by bits of (x, y); batch family: per knot set a master list of targets (knots, random interior, knot+-1ulp, a coarse regular grid, both outsides) evaluated one per call and then in one call in six orders (shuffled, out-of-range alternating with in-range, ascending dense, ascending sparse, coarse grid, descending) x 3 modes x 2 variants (Panic mode with in-range targets only): every value must satisfy the oracle and equal the one-per-call value bit for bit; history family: one (x, y) buffer pair with spare capacity, a first strictly increasing table (>= 6 knots, 30 % normalised to [0, 1]), then 3..7 in-place edits (the first one = case index mod 11 of swap-interior, reverse-interior-run, duplicate-knot, tangle-one-node, nudge-interior, restore-sorted, refill-sorted-same-ends, refill-unsorted-same-ends, refill-other-length, change-end-point, y-truncated; the others random), the checked variant called after every edit on the same thread with knot / interior / outside targets in a random mode: descent or length mismatch must panic, a strictly increasing table must give the oracle's values and the bits of a first call on a fresh thread".into();
+    rep.rule = "random knot sets: n in 2..200, strictly increasing abscissae (uniform / spacing ratios <= 1e2 / <= 1e6, scale 1e-3..1e3), ordinates gaussian / |y| in 1e-150..1e150 / flat runs with zeros / integers / offset 1e6; per set: in-range targets (knots incl. first and last, midpoints, knot+-1ulp, random interior) x 3 modes x 2 variants, then per side 4 out-of-range targets (1 ulp, fraction of range, 1x, 10x range) x 3 modes x 2 variants, then one unsorted and one length-mismatched call of the checked variant. one evaluation = one library call. non-trivial = n >= 3 and ordinates not all equal; distinct by bits of (x, y); batch family: per knot set a master list of targets (knots, random interior, knot+-1ulp, a coarse regular grid, both outsides) evaluated one per call and then in one call in six orders (shuffled, out-of-range alternating with in-range, ascending dense, ascending sparse, coarse grid, descending) x 3 modes x 2 variants (Panic mode with in-range targets only): every value must satisfy the oracle and equal the one-per-call value bit for bit; history family: one (x, y) buffer pair with spare capacity, a first strictly increasing table (>= 6 knots, 30 % normalised to [0, 1]), then 3..7 in-place edits (the first one = case index mod 11 of swap-interior, reverse-interior-run, duplicate-knot, tangle-one-node, nudge-interior, restore-sorted, refill-sorted-same-ends, refill-unsorted-same-ends, refill-other-length, change-end-point, y-truncated; the others random), the checked variant called after every edit on the same thread with knot / interior / outside targets in a random mode: descent or length mismatch must panic, a strictly increasing table must give the oracle's values and the bits of a first call on a fresh thread; large-batch family: per knot set 255..10000 (thorough ..20000) targets, sizes at and next to powers of two, evaluated one per call and in one call in six orders (random, sorted, reversed, block-shuffled, rotated, sorted with a few swaps) x 3 modes x 2 variants, every position against the oracle and the one-target value".into();
     rep.assume("abscissae strictly increasing and finite, ordinates finite with |y| <= 1e150 (chords cannot overflow); ties in the abscissae are neither required to be accepted nor rejected");
     rep.assume("a knot ordinate of -0.0 may be returned as +0.0 (numerically equal)");
     rep.assume("fill values may be any f64 incl. inf/NaN and are compared bitwise (all NaNs identified)");
@@ -996,6 +1178,30 @@ pub fn run(cfg: &Cfg, rep: &mut Report) {
     rep.assume("what a thread has interpolated before, and what the buffer held at the previous call, is outside the quantifier: after every in-place edit of one (x, y) buffer pair the checked variant must reject a strict descent or a length mismatch and must, on a strictly increasing table, return the values a first call on a fresh thread returns for a fresh copy, bit for bit; edits that leave ties without a descent are not generated");
     let nh = cfg.pick(440, 8800, 2);
     par_cases(cfg, rep, 4, nh, |i, rng, rep| history_case(cfg, i, rng, rep));
+    // large batches (stream 5); off under Miri (thousands of library calls per case)
+    if !cfg.miri() {
+        rep.assume("the number of targets of one call is not bounded by the quantifier: batches of 255..10000 targets (thorough: ..20000; sizes at and next to powers of two) of knots, knot+-1ulp, midpoints, random interior points and (fill / extrapolate modes) targets beyond both ends, in random, sorted, reversed, block-shuffled, rotated and sorted-with-a-few-swaps order, must give at every position the oracle's value and, bit for bit, the value of a one-target call; in panic mode a batch with one out-of-range target anywhere must panic; not run under Miri, three sizes and one variant x mode pair per case in the lite layers");
+        let nl = cfg.pick(3 * LARGE_SIZES.len(), 6 * (LARGE_SIZES.len() + LARGE_SIZES_THOROUGH.len()), 6);
+        par_cases(cfg, rep, 5, nl, |i, rng, rep| large_batch_case(cfg, i, rng, rep));
+        rep.require("large-batch:size>=1024", 1);
+        rep.require("large-batch:size=2^j", 1);
+        rep.require("large-batch:size=2^j+1", 1);
+        rep.require("large-batch:out-of-range-on-both-sides", 1);
+        if !cfg.lite {
+            rep.require("large-batch:size<1024", 1);
+            rep.require("large-batch:size=2^j-1", 1);
+            rep.require("large-batch:size=other", 1);
+            rep.require("large-batch:panic-mode-one-target-outside", 1);
+        }
+        for v in ["checked", "unchecked"] {
+            for m in ["panic", "fill", "extrapolate"] {
+                rep.require(&format!("{}:{}:large-batch:single", v, m), 1);
+                for o in LARGE_ORDERS {
+                    rep.require(&format!("{}:{}:large-batch:{}", v, m, o), 1);
+                }
+            }
+        }
+    }
     rep.require("checked:history:first-table", 1);
     rep.require("history:same-address", 1);
     rep.require("history:after-accepted-call", 1);
